@@ -836,7 +836,11 @@ func (e *encoderMsgpackBytes) kMapCanonical(ti *typeInfo, rv, rvv reflect.Value,
 			for i := range mksv {
 				e.c = containerMapKey
 				e.e.WriteMapElemKey(i == 0)
-				e.e.EncodeTime(mksv[i].v)
+				if e.h.timeBuiltin {
+					e.e.EncodeTime(mksv[i].v)
+				} else {
+					e.encodeValue(mksv[i].r, keyFn)
+				}
 				e.mapElemValue()
 				e.encodeValue(mapGet(rv, mksv[i].r, rvv, mparams), valFn)
 			}
@@ -999,7 +1003,11 @@ func (e *encoderMsgpackBytes) encodeBuiltin(iv interface{}) (ok bool) {
 	case complex128:
 		e.encodeComplex128(v)
 	case time.Time:
-		e.e.EncodeTime(v)
+		if e.h.timeBuiltin {
+			e.e.EncodeTime(v)
+		} else {
+			e.encodeR(reflect.ValueOf(v))
+		}
 	case []byte:
 		e.e.EncodeBytes(v)
 	default:
@@ -2693,7 +2701,11 @@ func (d *decoderMsgpackBytes) decode(iv interface{}) {
 
 		d.decodeBytesInto(v[:len(v):len(v)], true)
 	case *time.Time:
-		*v = d.d.DecodeTime()
+		if d.h.timeBuiltin {
+			*v = d.d.DecodeTime()
+		} else {
+			d.decodeValue(reflect.ValueOf(v), nil)
+		}
 	case *Raw:
 		*v = d.rawBytes()
 
@@ -4897,7 +4909,11 @@ func (e *encoderMsgpackIO) kMapCanonical(ti *typeInfo, rv, rvv reflect.Value, ke
 			for i := range mksv {
 				e.c = containerMapKey
 				e.e.WriteMapElemKey(i == 0)
-				e.e.EncodeTime(mksv[i].v)
+				if e.h.timeBuiltin {
+					e.e.EncodeTime(mksv[i].v)
+				} else {
+					e.encodeValue(mksv[i].r, keyFn)
+				}
 				e.mapElemValue()
 				e.encodeValue(mapGet(rv, mksv[i].r, rvv, mparams), valFn)
 			}
@@ -5060,7 +5076,11 @@ func (e *encoderMsgpackIO) encodeBuiltin(iv interface{}) (ok bool) {
 	case complex128:
 		e.encodeComplex128(v)
 	case time.Time:
-		e.e.EncodeTime(v)
+		if e.h.timeBuiltin {
+			e.e.EncodeTime(v)
+		} else {
+			e.encodeR(reflect.ValueOf(v))
+		}
 	case []byte:
 		e.e.EncodeBytes(v)
 	default:
@@ -6754,7 +6774,11 @@ func (d *decoderMsgpackIO) decode(iv interface{}) {
 
 		d.decodeBytesInto(v[:len(v):len(v)], true)
 	case *time.Time:
-		*v = d.d.DecodeTime()
+		if d.h.timeBuiltin {
+			*v = d.d.DecodeTime()
+		} else {
+			d.decodeValue(reflect.ValueOf(v), nil)
+		}
 	case *Raw:
 		*v = d.rawBytes()
 
